@@ -56,7 +56,8 @@ def build(rnd, tier, flags):
     cont_used = lab_used = omp = multi = inter = False
     first = True
     for st, d in flat:
-        hide = st.removable and not first and r.chance(35) and st.role == "simple"
+        # the first statement of the file may be hidden too (main program without PROGRAM statement)
+        hide = st.removable and r.chance(60 if first else 35) and st.role == "simple"
         first = False
         if r.chance(8):
             o = r.pick(OMP_LINES)
